@@ -7,12 +7,12 @@ TECH = "property-based testing (pgregory.net/rapid)"
 
 CLAIMED = {
  "C01": dict(
-  text="Two layers. Pure: keeper.GetInputPrice/GetOutputPrice against a math/big reference over operands up to 2^128 and fees from 10^-18 to 1-10^-18, with a constructive generator for the exact-division residue: the fee-inclusive constant-product rule holds for the returned amount and fails for one unit more (input), and the price lies in [p_min, p_min+1] (output); a panic is only accepted as the 256-bit overflow refusal when a product really exceeds the range. Histories: add (incl. pool creation) / remove / one-sided add and remove on either side / swaps (sell, buy, single and double hop) / donations to escrow / parameter changes / blocks by several accounts; after every successful message S'T'L^2 >= STL'^2 for every pool, untouched pools bit-identical, every swap leg read off the reserve deltas satisfies the rule and optimality against the pre-state reserves and the fee in force.",
+  text="Two layers. Pure: keeper.GetInputPrice/GetOutputPrice against a math/big reference over operands up to 2^128 and fees from 10^-18 to 1-10^-18, with a constructive generator for the exact-division residue: the fee-inclusive constant-product rule holds for the returned amount and fails for one unit more (input), and the price lies in [p_min, p_min+1] (output); a panic is only accepted as the 256-bit overflow refusal when a product really exceeds the range. Histories: add (incl. pool creation) / remove / one-sided add and remove on either side / swaps (sell, buy, single and double hop; recipients also in upper-case bech32) / donations to escrow (reserve coins, third coins, the pool's own share tokens) / one-sided operations naming a parked coin / parameter changes / blocks by several accounts, over up to four pools two of whose coins differ by letter case only; after every successful message S'T'L^2 >= STL'^2 for every pool, untouched pools bit-identical, every swap leg read off the reserve deltas satisfies the rule and optimality against the pre-state reserves and the fee in force.",
   note="Bounded random search (<=3 pools, reserves and shares <=2^128, <=40-80 ops); SDK/bank/rapid trusted.",
   technique=TECH + ": pure function vs big-integer reference (random + constructive boundary generator) and state machine with per-step invariant, shrinking to JSON replay",
   ref="DESIGN.md §4 C01"),
  "C02": dict(
-  text="The C01 history machine with the balance-sheet oracle: the whole bank sheet (every account, every supply) is diffed around each message and must equal exactly the moves the property allows - sender debited the sold coin only, recipient credited the bought coin only, intermediate standard coin netting to zero for both on routed swaps, pools changing by their legs, bounds and deadlines respected, liquidity tokens minted/burned only against deposits/withdrawals, pool creation fee split into tax and burn, responses equal to observed deltas; rejected messages are re-run on a branch with only the deadline moved or the bounds loosened to detect rejections the property does not allow.",
+  text="The C01 history machine with the balance-sheet oracle: the whole bank sheet (every account, every supply) is diffed around each message and must equal exactly the moves the property allows - sender debited the sold coin only, recipient credited the bought coin only, intermediate standard coin netting to zero for both on routed swaps, pools changing by their legs, bounds and deadlines respected, liquidity tokens minted/burned only against deposits/withdrawals of the pool's two reserve coins, pool creation fee split into tax and burn, responses equal to observed deltas; rejected messages are re-run on a branch with only the deadline moved or the bounds loosened to detect rejections the property does not allow.",
   note="Same bounds as C01; recipients include other users, poor accounts, blocked addresses, pool escrows and the module account; SDK/bank/rapid trusted.",
   technique=TECH + ": state machine with exact balance-sheet delta oracle and branch probes, shrinking to JSON replay",
   ref="DESIGN.md §4 C02"),
@@ -37,7 +37,7 @@ CLAIMED = {
   technique=TECH + ": state machine vs exact-rational reference model + metamorphic relation (harvest frequency), shrinking to JSON replay",
   ref="DESIGN.md §4 C06"),
  "C07": dict(
-  text="rapid state machine over define / bind / update / enable / disable / refund-deposit / set-withdraw-address / call (one-shot and repeated, provider subsets, fee caps around the discounted price) / respond (right, wrong, duplicate, late) / withdraw / parameter changes / blocks, with pricing generated from the module's own pricing grammar (time and volume promotions, several denoms through a table-driven exchange-rate source) and a consumer that runs out of money; a big-number model predicts the exact coin moves of every operation and, after every step, the three escrow equations (deposit escrow = recorded deposits; request escrow = fees of active requests + unwithdrawn earned fees; owner tally = sum of provider tallies), and per end-block the refunds, slashes and charges per consumer and the whole balance-sheet change.",
+  text="rapid state machine over define / bind / update / enable / disable / refund-deposit / set-withdraw-address / call (one-shot and repeated, provider subsets, fee caps around the discounted price) / respond (right, wrong, duplicate, late) / withdraw / parameter changes / blocks, with pricing generated from the module's own pricing grammar (time and volume promotions, several denoms through a table-driven exchange-rate source, one of them debited after the base denom) and consumers that run out of money or can pay a batch in part only; a big-number model predicts the exact coin moves of every operation and, after every step, the three escrow equations (deposit escrow = recorded deposits; request escrow = fees of active requests + unwithdrawn earned fees; owner tally = sum of provider tallies), and per end-block the refunds, slashes and charges per consumer and the whole balance-sheet change.",
   note="Bounded random search (<=4 providers, 3 consumers, <=50-80 ops); the oracle price source is a table-driven module service registered by the harness; SDK/bank/rapid trusted.",
   technique=TECH + ": state machine vs big-number reference model with exact balance-sheet deltas, shrinking to JSON replay",
   ref="DESIGN.md §4 C07"),
@@ -67,7 +67,7 @@ CLAIMED = {
   technique=TECH + ": state machine over blocks, round-trip (export -> import -> export), differential query oracle and metamorphic chain continuation (export/import commutes with block execution), shrinking to JSON replay",
   ref="DESIGN.md §4 C12"),
  "C13": dict(
-  text="The all-module history generator on the ABCI driver (real FinalizeBlock with every module's begin and end blocker), biased towards objects that fall due in the block being built (farm pool at its start/end height: adjust, destroy, stake, harvest; request context with a batch starting or expiring: pause, start, kill, update; HTLC at its expiry: claim). After every block: the block completed without error or panic; HTLC expiry-queue entries are exactly the open contracts, none at or below the height, and the block's refund events are exactly the contracts open with that expiry; the farm queue holds exactly the pools not yet ended and ended pools hold no reward budget; every service queue entry names an existing context above the height, running contexts have exactly one entry, paused/killed ones at most one; the random queue holds nothing below the height and every plain request due was answered by exactly one event and is readable.",
+  text="The all-module history generator on the ABCI driver (real FinalizeBlock with every module's begin and end blocker), biased towards objects that fall due in the block being built (farm pool at its start/end height: adjust, destroy, stake, harvest; request context with a batch starting or expiring: pause, start, kill, update; HTLC at its expiry: claim); providers report everyday, zero, negative, tiny and astronomical values, also to the feeds that serve as exchange rates. After every block: the block completed without error or panic; HTLC expiry-queue entries are exactly the open contracts, none at or below the height, and the block's refund events are exactly the contracts open with that expiry; the farm queue holds exactly the pools not yet ended and ended pools hold no reward budget; every service queue entry names an existing context above the height, running contexts have exactly one entry, paused/killed ones at most one; the random queue holds nothing below the height and every plain request due was answered by exactly one event and is readable.",
   note="Bounded random search (<=80-120 blocks so that the 50-block minimum HTLC time lock expires, 4 funded users, default parameters; parameter sets crossed with block hooks are C16's differential); exactly-once amounts are decided by C03/C06/C07/C08; SDK/IAVL/rapid trusted.",
   technique=TECH + ": state machine over blocks with store-level queue invariants and per-block event sets, shrinking to JSON replay",
   ref="DESIGN.md §4 C13"),
@@ -82,7 +82,7 @@ CLAIMED = {
   technique=TECH + ": state machine vs big.Int reference ledger, shrinking to JSON replay",
   ref="DESIGN.md §4 C15"),
  "C16": dict(
-  text="Two machines. Authority: parameter sets over the whole message space of coinswap, farm, htlc, service and token (every decimal from absent/negative/0/10^-18 to >1 and 2^315-1, coins with nil/negative/zero/huge amounts and empty/odd denoms, durations 0/1ns/max/negative, integers min/0/1/max, HTLC asset lists with boundary values) submitted by the authority, users, the module account and garbage senders through the router, the Msg server directly, SetParams and genesis import: a non-authority never changes anything, the authority stores exactly the submitted set iff the module's own Validate() accepts it, a rejected set is never stored by genesis. Differential: on a prepared all-module state, for an accepted non-default set P and each of 43 catalogued operations (every Msg method of the five modules, enumerated through the protobuf registry) and for runs of 1-61 blocks, the operation under the restored defaults and under P are compared: violation iff the default run ends in success or an ordinary rejection and the run under P panics (for block hooks also an error or a 256-bit overflow).",
+  text="Two machines. Authority: parameter sets over the whole message space of coinswap, farm, htlc, service and token (every decimal from absent/negative/0/10^-18 to >1 and 2^315-1, coins with nil/negative/zero/huge amounts and empty/odd denoms, durations 0/1ns/max/negative, integers min/0/1/max, HTLC asset lists with boundary values) submitted by the authority, users, the module account and garbage senders through the router, the Msg server directly, SetParams and genesis import: a non-authority never changes anything, the authority stores exactly the submitted set iff the module's own Validate() accepts it, a rejected set is never stored by genesis. Differential: on a prepared all-module state, for an accepted non-default set P and each of 43 catalogued operations (every Msg method of the five modules, enumerated through the protobuf registry) and for runs of 1-61 blocks, the operation under the restored defaults and under P are compared: violation iff the default run ends in success or an ordinary rejection and the run under P panics (for block hooks also an error or a 256-bit overflow); a third run executes the whole sequence under the defaults, so that an abort on a state the sequence itself reached under P is reported even though the same-state default run shares it.",
   note="Bounded random search over parameter values and states; one module's parameters differ from the defaults at a time; a 256-bit range panic in a message handler counts as rejection; SDK/rapid trusted.",
   technique=TECH + ": state machine (authority/validity oracle) + differential testing under default vs generated parameter sets, shrinking to JSON replay",
   ref="DESIGN.md §4 C16"),
@@ -97,7 +97,7 @@ CLAIMED = {
   technique=TECH + ": state machine vs reference model + independent re-implementation of the PRNG (differential) + metamorphic branch, shrinking to JSON replay",
   ref="DESIGN.md §4 C18"),
  "C19": dict(
-  text="Generated histories of record creations (byte-identical duplicates within one tx, one block and across blocks), blocks and other-module messages; after every step every id ever returned is read back and compared with what was submitted, ids are checked pairwise distinct and the raw record store is checked to only grow.",
+  text="Generated histories of record creations (byte-identical duplicates within one tx - up to 300 of them -, one block and across blocks; a record counter aged to the end of its range), blocks and other-module messages; after every step every id ever returned is read back and compared with what was submitted, ids are checked pairwise distinct and the raw record store is checked to only grow.",
   note="Bounded random search (history length, 3 creators, small content alphabet); SDK/bank/store and rapid trusted; no proof of absence.",
   technique=TECH + ": state machine vs reference map, shrinking to JSON replay",
   ref="DESIGN.md §4 C19"),
